@@ -5,6 +5,7 @@ from intervals import Intervals
 from algebra import fact_of_guard, canon_le, lin
 from paths import enum_paths
 import libmodel
+import intervals
 import panics
 import sigtab
 
@@ -37,6 +38,19 @@ def rule_count_fields(prog, res):
             while src.op == "cast":
                 src = src.args[1]
             si = iv.interval(src, b)
+            # a guard may be written on the converted value (`let n = mask.count_ones() as u8; if n > 63 { return Err }`): where every cast on
+            # the way is value-preserving for the source's interval, the written value IS the source and its own (guard-refined) interval counts
+            if si is not None and v is not src:
+                x_, lossless = v, True
+                while x_.op == "cast":
+                    rng_ = intervals.trange(x_) if x_.args[0] == "IntToInt" else None
+                    if rng_ is None or not (rng_[0] <= si[0] and si[1] <= rng_[1]):
+                        lossless = False
+                        break
+                    x_ = x_.args[1]
+                sv = iv.interval(v, b) if lossless else None
+                if sv is not None:
+                    si = (max(si[0], sv[0]), min(si[1], sv[1]))
             ok = w is not None and si is not None and 0 <= si[0] and si[1] <= (1 << w) - 1
             res.ob("K-adeq", "%s | %s written in %s bits cannot wrap" % (num, show(v, names), w), ok, "value in %s, field max %s" % (si, (1 << w) - 1 if w else None),
                    {"file": f.loc["file"], "line": t["line"]}, sample={"value": show(v, names), "interval": si, "bits": w})
@@ -129,8 +143,95 @@ def rule_count_fields(prog, res):
                     sterm = v
                     okl = True
         res.ob("Q-mask", "%s | groups are written for s = 0..=%d ascending, exactly for the satellites present" % (num, maxid), okl, "", f.loc)
+        # Q-cnt: the satellite count on the wire is the number of groups written = the number of bits of the satellite mask
+        _count_rule(res, num, f, fa, puts, maxid)
         # Q-pred: the counted predicate equals the written predicate
         _pred_rule(prog, res, num, mod, f, fa, sterm)
+
+
+def _add_update_sites(fa, t, v=None, pb=None, depth=0):
+    """[(block the update arrives from, increment)] for every operand Add(t, k) of the counter phi t (through inner phis); None for another shape"""
+    out = []
+    if v is None:
+        for qb, w in fa.phi_operands(t):
+            r = _add_update_sites(fa, t, w, qb, depth + 1)
+            if r is None:
+                return None
+            out.extend(r)
+        return out
+    if v is t:
+        return []
+    if depth > 5:
+        return None
+    if v.op == "bin" and v.args[0] == "Add" and (v.args[1] is t or v.args[2] is t):
+        return [(pb, v.args[2] if v.args[1] is t else v.args[1])]
+    if v.op == "phi":
+        for qb, w in fa.phi_operands(v):
+            r = _add_update_sites(fa, t, w, qb, depth + 1)
+            if r is None:
+                return None
+            out.extend(r)
+        return out
+    if is_const(v) and const_val(v) == 0:
+        return [("init", v)]
+    return None
+
+
+def _count_rule(res, num, f, fa, puts, maxid):
+    import msm
+    inloop = set()
+    for h_, body_ in f.loops().items():
+        inloop |= set(body_)
+    # the count is the first write of the encoder: the put that is not inside a loop
+    first = [(b, a, t) for b, a, t in puts if b not in inloop]
+    ok = False
+    d = ""
+    if len(first) != 1:
+        d = "%d writes outside the loops" % len(first)
+    else:
+        b, a, t = first[0]
+        v = a[1]
+        while v.op == "cast" and v.args[0] == "IntToInt":
+            v = v.args[1]
+        # the mask: the accumulator the group loop tests
+        masks = set()
+        for b2, a2, t2 in puts:
+            for gd in fa.guards(b2):
+                fc = fact_of_guard(gd)
+                if fc[0] == "Ne" and is_const(fc[2]) and const_val(fc[2]) == 0 and fc[1].op == "bin" and fc[1].args[0] == "BitAnd":
+                    for m_, s_ in ((fc[1].args[1], fc[1].args[2]), (fc[1].args[2], fc[1].args[1])):
+                        if s_.op == "bin" and s_.args[0] == "Shl" and m_.op == "phi":
+                            masks.add(m_)
+        if len(masks) != 1:
+            d = "the group loop does not test one mask accumulator (%d found)" % len(masks)
+        else:
+            M = next(iter(masks))
+            if v.op == "call" and v.args[0].endswith(">::count_ones") and v.args[1] and v.args[1][0] is M:
+                ok = True
+                d = "count = popcount of the mask the group loop walks"
+            elif v.op == "phi":
+                adds = _add_update_sites(fa, v)
+                ors = msm.or_update_sites(fa, M)
+                if adds is None:
+                    d = "the count is not a counter (0, then + 1)"
+                else:
+                    inc = [(pb, k) for pb, k in adds if pb != "init"]
+                    okk = all(is_const(k) and const_val(k) == 1 for pb, k in inc) and any(pb == "init" for pb, k in adds)
+                    same = sorted(pb for pb, k in inc) == sorted(pb for pb, k in ors) and len(inc) >= 1
+                    fresh = True
+                    for pb, dlt in ors:
+                        hit = False
+                        for gd in fa.guards(pb):
+                            fc = fact_of_guard(gd)
+                            if fc[0] in ("Eq", "Le") and is_const(fc[2]) and const_val(fc[2]) == 0 and fc[1].op == "bin" and fc[1].args[0] == "BitAnd" \
+                                    and ((fc[1].args[1] is dlt and fc[1].args[2] is M) or (fc[1].args[2] is dlt and fc[1].args[1] is M)):
+                                hit = True
+                        fresh = fresh and hit
+                    ok = okk and same and fresh
+                    d = "counter + 1 at %s, mask bit added at %s, each under (bit & mask) == 0: %s" % (sorted(str(pb) for pb, k in inc), sorted(str(pb) for pb, k in ors), fresh)
+            else:
+                d = "count value %s is neither popcount(mask) nor a counter" % show(v, fa.names)[:120]
+    res.ob("Q-cnt", "%s | the satellite count written = number of satellites in the mask (popcount, or + 1 exactly where a new mask bit is set)" % num, ok, d, f.loc)
 
 
 def _closure_atoms(prog, path):
